@@ -23,6 +23,10 @@ TIES = {
                lambda: __import__("asg2v").translate(os.path.join(REPO, "csvpath", "matching", "productions", "equality.py")),
                ("Match", "AsgSrc.v"), ("Match", "AsgSrcEq.v"), "From V Require Import Match.Assign Match.QSem Match.AsgSrc.",
                "From V Require Import Match.Assign Match.QSem.\nFrom Tie Require Import AsgSrc.", "set_variable_if_src_eq, latch_and_onchange_src_eq, do_assignment_src_eq"),
+    "runstep": ("CsvPath._consider_line / raise_match_count_if (csvpath/csvpath.py), LineMonitor.is_last_line_and_blank (csvpath/util/line_monitor.py)",
+                lambda: __import__("run2v").translate(REPO),
+                ("Run", "RunSrc.v"), ("Run", "RunSrcEq.v"), "From V Require Import Scan.ScanModel Scan.PySem Scan.ScanSrc Scan.ScanSrcEq Run.RunLoop Run.RunSem Run.RunSrc.",
+                "From V Require Import Scan.ScanModel Scan.PySem Scan.ScanSrc Scan.ScanSrcEq Run.RunLoop Run.RunSem.\nFrom Tie Require Import RunSrc.", "consider_line_src_eq"),
 }
 
 
